@@ -364,6 +364,33 @@ type c08World struct {
 	mu    sync.Mutex
 	sent  []c08Sent // the network: everything the local node ever broadcast, over all incarnations
 	local base.LocalNode
+	// lostAtRestart: keys (stage point, sc flag) whose kept record was in the pool when an incarnation ended and was absent
+	// (not merely undecodable) right after the start-up sequence of the next one. Only used to name the root cause of an
+	// equivocation (restart vs cleaner round); a lost record alone is not a violation of the statement.
+	lostAtRestart map[string]bool
+}
+
+// keptKeys: for which of the stage points the local node ever broadcast a ballot does the running pool hold a record (a record
+// the running encoder set cannot decode counts as held).
+func (c *c08World) keptKeys() map[string]bool {
+	c.mu.Lock()
+	sent := append([]c08Sent(nil), c.sent...)
+	c.mu.Unlock()
+
+	kept := map[string]bool{}
+
+	for _, s := range sent {
+		if s.Node != c.local.Address().String() || kept[s.key()] {
+			continue
+		}
+
+		sp := s.bl.Point()
+		if _, found, err := c.pool.Ballot(sp.Point, sp.Stage(), s.SC); found || err != nil {
+			kept[s.key()] = true
+		}
+	}
+
+	return kept
 }
 
 func newC08World(n int, state isaacstates.StateType, failAt int) (*c08World, error) {
@@ -384,7 +411,7 @@ func newC08World(n int, state isaacstates.StateType, failAt int) (*c08World, err
 }
 
 // boot starts one incarnation of the node on the storage: leveldb, the real TempPool, the real DefaultBallotBroadcaster and a
-// States in Syncing/Broken, all with the given encoder set.
+// States in Syncing/Broken, all with the given encoder set. The database part follows launch.LoadDatabase step by step.
 func (c *c08World) boot(es *c08EncSet) error {
 	// small buffers: a case writes a handful of records, and opening with the default 4 MiB write buffer dominated the run time
 	lst, err := leveldbstorage.NewStorage(c.str, &goleveldbopt.Options{WriteBuffer: 64 << 10, BlockCacheCapacity: 64 << 10})
@@ -392,8 +419,41 @@ func (c *c08World) boot(es *c08EncSet) error {
 		return err
 	}
 
+	// the start-up ORDER of launch.LoadDatabase on the one shared storage, with the same public helpers: permanent database,
+	// Center, MergeAllPermanent, CleanSyncPool (drops what an interrupted sync left behind) and only then the TempPool. None of
+	// these steps is specified to touch the pool's key space: what the pool kept before the restart must still be there.
+	perm, err := isaacdatabase.NewLeveldbPermanent(lst, es.encs, es.enc, 0)
+	if err != nil {
+		_ = lst.Close()
+
+		return errors.WithMessage(err, "start-up: permanent database")
+	}
+
+	center, err := isaacdatabase.NewCenter(lst, es.encs, es.enc, perm, func(h base.Height) (isaac.BlockWriteDatabase, error) {
+		return isaacdatabase.NewLeveldbBlockWrite(h, lst, es.encs, es.enc), nil
+	})
+	if err != nil {
+		_ = lst.Close()
+
+		return errors.WithMessage(err, "start-up: center")
+	}
+
+	if err = center.MergeAllPermanent(); err != nil {
+		_ = lst.Close()
+
+		return errors.WithMessage(err, "start-up: merge all permanent")
+	}
+
+	if err = isaacdatabase.CleanSyncPool(lst); err != nil {
+		_ = lst.Close()
+
+		return errors.WithMessage(err, "start-up: clean sync pool")
+	}
+
 	pool, err := isaacdatabase.NewTempPool(lst, es.encs, es.enc, 0)
 	if err != nil {
+		_ = lst.Close()
+
 		return err
 	}
 
@@ -444,11 +504,29 @@ func (c *c08World) shutdown() error {
 // restartWithEncoders: the node process ends in a quiescent moment (pool and leveldb closed) and a new one starts on the
 // same storage with an encoder set that lacks the named hinter groups (none = plain restart).
 func (c *c08World) restartWithEncoders(missing []string) error {
+	before := c.keptKeys()
+
 	if err := c.shutdown(); err != nil {
 		return err
 	}
 
-	return c.boot(c08Encoders(missing))
+	if err := c.boot(c08Encoders(missing)); err != nil {
+		return err
+	}
+
+	after := c.keptKeys()
+
+	for k := range before {
+		if !after[k] {
+			if c.lostAtRestart == nil {
+				c.lostAtRestart = map[string]bool{}
+			}
+
+			c.lostAtRestart[k] = true
+		}
+	}
+
+	return nil
 }
 
 func TestC08(t *testing.T) {
@@ -459,7 +537,7 @@ func TestC08(t *testing.T) {
 		"different stage points, older heights, suffrage-confirm vs ordinary) in 1..3 phases (a later phase often returns to the still-open stage point of the previous one); the harness gate holds each delivery right after its pool lookup and releases them in a drawn order; " +
 		"optionally the local node also broadcasts a ballot of its own for one of the points (first-made or re-made with another proposal), optionally one of the first pool writes fails (injected storage fault); " +
 		"action cleanerTick (hook H4: one round of the pool's periodic cleaner daemon) runs between two phases or concurrently with the deliveries of a phase; " +
-		"action restartWithEncoders between two phases: pool and leveldb are closed and a new incarnation (leveldb, TempPool, DefaultBallotBroadcaster, States) is started on the same storage with an encoder set that lacks a drawn subset of " +
+		"action restartWithEncoders between two phases: pool and leveldb are closed and a new incarnation is started on the same storage by the start-up sequence of launch.LoadDatabase in its order (leveldb, NewLeveldbPermanent, NewCenter, MergeAllPermanent, CleanSyncPool, NewTempPool; then DefaultBallotBroadcaster, States; the first incarnation starts the same way) with an encoder set that lacks a drawn subset of " +
 		"the hinter groups a ballot record may need (empty-proposal / empty-operations / not-processed facts, suffrage-confirm fact, expel operation, expel voteproofs, stuck voteproofs; the empty subset is a plain restart); " +
 		"after a restart only ballots the running encoder set can decode from their wire form are delivered; deliveries include ballots with EmptyProposalINIT / EmptyOperationsACCEPT / NotProcessedACCEPT facts. " +
 		"Oracle: per (stage point, suffrage-confirm flag) the ballots signed by the local node that reached the network function over the whole history (all incarnations) carry at most one fact; a cleaner round starts a new epoch only for the stage points " +
@@ -886,11 +964,12 @@ func TestC08(t *testing.T) {
 				// the first fact was broadcast by an earlier incarnation of the node and the different one after a restart
 				for _, at := range restartAt {
 					if first[k] < at && second[k] >= at {
-						if sig != "equivocation-after-pool-clean" {
+						// a cleaner round in between takes the blame unless the record was seen to vanish in the start-up itself
+						if sig != "equivocation-after-pool-clean" || c.lostAtRestart[k] {
 							sig = "equivocation-after-restart"
 						}
 
-						if !c.es.readable(sent[first[k]].bl) {
+						if !c.lostAtRestart[k] && !c.es.readable(sent[first[k]].bl) {
 							sig = "equivocation-kept-ballot-unreadable-after-restart"
 						}
 					}
